@@ -8,7 +8,7 @@ MUT="$1"; PROP="$2"; VAR="$3"; shift 3
 export GOFLAGS=-mod=mod GOPROXY=off GOSUMDB=off GOTOOLCHAIN=local
 HERE=/verif
 SRC="$MUT/seeded/$VAR"
-OUT="$HERE/seeded/$PROP-$VAR"
+OUT="$HERE/seeded/$PROP-$VAR${SUFFIX:-}"
 WT=/tmp/ev-$PROP-$VAR-$$
 mkdir -p "$OUT"
 git -C /repo worktree add -q --detach "$WT" HEAD || exit 2
@@ -18,7 +18,7 @@ CMD=$(python3 - "$SRC/meta.json" "$MUT" "$WT" <<'PY'
 import json,sys
 d=json.load(open(sys.argv[1]))
 c=d['demo_cmd']
-for mark in ('   (or', '  (or'):
+for mark in ('   (or', '  (or', ' ; rm ', '; rm '):
     i=c.find(mark)
     if i>0: c=c[:i]
 print(c.replace(sys.argv[2], sys.argv[3]))
